@@ -68,6 +68,13 @@ def cases(tier, rng):
             snd = "send @a;%s" % m if t == "ROUTER" else "send %s" % m
             out.append("w%d sock %s / %s / hs a / %s / wire a" % (k, t, pre, snd))
             k += 1
+    # a socket configured with an identity announces it in its READY, whatever its type
+    for t, pt in (("PUSH", "PULL"), ("PULL", "PUSH"), ("DEALER", "ROUTER"), ("ROUTER", "DEALER"), ("REQ", "REP"), ("REP", "REQ"),
+                  ("PUB", "SUB"), ("SUB", "PUB"), ("XPUB", "SUB")):
+        for idl in (1, 16, 255):
+            ident = bytes([0x41 + (idl + i) % 20 for i in range(idl)])
+            out.append("i%d sock %s id=%s / attach a %s / hs a" % (k, t, ident.hex(), pt))
+            k += 1
     out.append("g%d greet default" % k)
     k += 1
     for a in (0, 1, 2, 3, 4, 255):
@@ -109,7 +116,8 @@ def py_hdr(more, n):
 
 
 def compare_filter(line):
-    return line.split()[1] != "encdec"      # implementation-only round trip, judged by the oracle
+    # encdec: implementation-only round trip; i: socket-level identity option (the model's sockets have no options)
+    return line.split()[1] != "encdec" and not line.startswith("i")
 
 
 def model_cases(case_lines):
@@ -179,6 +187,16 @@ def judge(line, impl_obs, orc):
         for i, (l, t) in enumerate(zip(lens, toks)):
             if t != py_hdr(i < len(lens) - 1, l).hex() + ":1":
                 return "frame %d (len %d) header/body wrong: %s" % (i, l, t)
+    elif kind == "sock" and cid.startswith("i"):
+        t = sp[2]
+        ident = sp[3][3:]
+        if orc.get("o" + cid) != "ok 3.0 NULL":
+            return "greeting sent by a %s socket is not the well-formed 3.0/NULL greeting: %s" % (t, orc.get("o" + cid))
+        c = orc.get("c" + cid, "")
+        props = sorted(c.split(" ", 2)[2].split(",")) if c.startswith("ok READY ") else None
+        want = sorted(["%s=%s" % (b"Socket-Type".hex(), t.encode().hex()), "%s=%s" % (b"Identity".hex(), ident)])
+        if props != want:
+            return "READY sent by a %s socket configured with an identity: %s (expected Socket-Type and Identity)" % (t, c[:140])
     elif kind == "sock":
         t = sp[2]
         if orc.get("o" + cid) != "ok 3.0 NULL":
